@@ -39,6 +39,7 @@ import Proofs.ResolverStaticDisCheck
 import Proofs.ResolverStaticRun
 import Proofs.ResolverStaticRunCheck
 import Proofs.ResolverForkOrder
+import Proofs.ResolverStaticApprox
 import Proofs.DataflowApprox
 import Proofs.ResolverStaticEvalR
 import Proofs.ResolverStaticExample
@@ -1083,6 +1084,56 @@ theorem den_fuel_independent_checked (P : Program) (O : Oracle) (h : callGraphAc
   den_fuel_independent P O _ (callRankOk_of_B P h).1 (callRankOk_of_B P h).2 k
 
 example : callGraphAcyclicB exPlain = true ∧ callGraphAcyclicB exPipe = true := by decide
+
+/-! ### towards the refinement modulo `≈` (empty / null run-time sources) -/
+
+/--
+PARTIAL (bonus round): THE EXPRESSION STEP OF THE REFINEMENT MODULO `≈`.  If den's environment `env`
+is `≈` an environment `env'` of the same types (`EnvApprox`: `env'` renders every `dnull` of `env`)
+which the static environment refines EXACTLY (`EnvRel`), then for every well-typed binding
+expression den's value, narrowed to the expected type, is `≈` the run-time evaluation of the
+statically resolved expression — and so is the whole argument record of a call
+(`args_approx_partial`).  This is the step the empty / null run-time source shape needs (den:
+`dnull` and optional instances; code and model: the empty collection of the call's mode,
+`merge_empty_renders_dnull`; the model lists the instances below such a call once, at "no element",
+marked optional: `instsT_subR_empty`).
+
+GAP to a refinement theorem for that shape: the induction of `refine_callsR` with `EnvRel` replaced
+by "`EnvApprox env env'` for some `env'` with `EnvRel env'`" (after an empty map call the witness is
+den's environment with that call's `dnull` replaced by the model's empty collection); agreement of
+`indicesOf` / `isTrue` on `≈` values of the shapes that occur (`dnull` against the EMPTY collection
+or null — for arbitrary null-like renderings the index sets differ); the arguments of the optional
+instances (the model's `split` at "no element" is `dnull`, not null).
+-/
+theorem resolveExp_refines_eval_approx_partial (st : StructTable) (hst : StructsOk st) (F : Nat)
+    (hF : NarrowFix st F) (ρ : Store) (Fs : ForkAssign → Prop) (env env' : Env) (self sib : RBMap)
+    (hA : Proofs.Approx.EnvApprox env env') (hrel : EnvRel st F ρ Fs env' self sib) (f : ForkAssign)
+    (hf : Fs f) (e : Exp) (t : Ty) (hty : HasTy st env.selfTy env.callTy t e) :
+    J.approx (narrow st F t (eval st env e)) (evalRT st F ρ f t (resolveRefs self sib e)) = true :=
+  (eval_resolveRefs_approx st hst F hF ρ Fs env env' self sib hA hrel f hf e t hty).1
+
+/-- … the argument record of a call (plain, or fork `ix` of a map call) respects `≈` of the
+environments: element selection (`elemAt`) is a congruence too. -/
+theorem args_approx_partial (st : StructTable) (F : Nat) (env env' : Env)
+    (h : Proofs.Approx.EnvApprox env env') (ins : List Param) (c : Call) (ix : Option Idx) :
+    J.approx (mkArgs st F (argVals st env ins c) ix) (mkArgs st F (argVals st env' ins c) ix) = true :=
+  approx_mkArgs st F env env' h ins c ix
+
+/-- the model's value of a `merge` over an EMPTY recorded index set is the empty collection of its
+mode — a rendering of den's `dnull` -/
+theorem merge_empty_renders_dnull_partial (st : StructTable) (F : Nat) (ρ : Store) (f : ForkAssign) (t : Ty)
+    (c : String) (m : Bool) (e : RExp) (h : ρ.idx c f = []) :
+    evalRT st F ρ f t (.merge c m e) = (if m then .obj [] else .arr []) ∧
+    J.approx .dnull (evalRT st F ρ f t (.merge c m e)) = true :=
+  merge_empty_renders_dnull st F ρ f t c m e h
+
+/-- non-vacuity: an environment whose call value is `dnull` against one that holds the empty array -/
+example : Proofs.Approx.EnvApprox ⟨[], .null, [("C", ⟨"S", 0, 1⟩, .dnull)]⟩ ⟨[], .null, [("C", ⟨"S", 0, 1⟩, .arr [])]⟩ := by
+  refine ⟨rfl, by decide, fun c => ?_, fun c => ?_⟩
+  · simp only [Env.callTy, List.lookup_cons, List.lookup_nil]
+    cases (c == "C") <;> rfl
+  · simp only [Env.callVal, List.lookup_cons, List.lookup_nil]
+    cases (c == "C") <;> decide
 
 /-! ### the order of the stage instances below nested map calls -/
 
